@@ -28,6 +28,7 @@ LEVEL_TEXT = (
     "row's block must equal the analytic coefficients at that row's parameters and state, under that row's label."
     " Added: a closed pair whose steady state depends on the start values in force, a parameter that acts "
     "through a computed stoichiometric coefficient only, mappings with reversed key order. "
+    ' Also: a reversible step exactly at equilibrium (zero flux) and away from it.'
 )
 LEVEL_NOTE = "trusted: the analytic steady state of the power-law chain/branch; finite-difference tolerance constants as stated"
 RULE = (
